@@ -120,7 +120,7 @@ def strList (j : Json) : List String :=
   | .arr a => a.toList.filterMap fun x => match x with | .str s => some s | _ => none
   | _ => []
 
-def runHist (env : Vars) (steps : List Json) : Except String (List Json) := do
+def runHist (env : Vars) (steps : List Json) (cont : Bool := false) : Except String (List Json) := do
   let mut st := PState.empty
   let mut out : List Json := []
   let mut dead := false
@@ -138,7 +138,8 @@ def runHist (env : Vars) (steps : List Json) : Except String (List Json) := do
           st := st'
           out := out ++ [Json.mkObj [("ok", Json.bool true)]]
         | .error e =>
-          dead := true
+          -- a failed merge leaves the (functional) state as it was; with `continue` the history goes on
+          if !cont then dead := true
           out := out ++ [errJson e]
       | .error _ =>
         match step.getObjVal? "docs" with
@@ -181,7 +182,8 @@ def handle (j : Json) : Except String Json := do
   | "hist" =>
     let env := envOfJson (j.getObjValD "env")
     let steps ← j.getObjValAs? (Array Json) "steps"
-    pure (Json.mkObj [("res", Json.arr (← runHist env steps.toList).toArray)])
+    let cont := (j.getObjValD "continue") == Json.bool true
+    pure (Json.mkObj [("res", Json.arr (← runHist env steps.toList cont).toArray)])
   | "required" =>
     let v ← valOfJson (j.getObjValD "v")
     match required v with
